@@ -33,6 +33,10 @@ pub fn run(cx: &mut Ctx) {
         Ok(o) => optimizer_rules(cx, &o),
         Err(e) => cx.anchor_missing("C12.O1", &e),
     }
+    match sm::load(&cx.repo, "ast/src/source_locator.rs") {
+        Ok(l) => handwritten_folds(cx, &model, &l),
+        Err(e) => cx.anchor_missing("C12.H1", &e),
+    }
 }
 
 // ---------------------------------------------------------------- fold
@@ -955,4 +959,142 @@ fn optimizer_rules(cx: &mut Ctx, o: &Src) {
 fn range_preserved(t: &str) -> bool {
     // `range,` shorthand or `range:range` inside the ExprConstant literal
     t.contains("kind:None,range}") || t.contains("kind:None,range}") || t.contains("range:range") || t.contains(",range,") || t.contains("{range,")
+}
+
+
+// ---------------------------------------------------------------- hand-written folds (source_locator.rs)
+
+/// C12.H1: the hand-written fold overrides rebuild nodes field by field; every field of every rebuilt node must be
+/// derived from the same-named field of the node that came in (flow-insensitive def-use closure inside the function).
+fn handwritten_folds(cx: &mut Ctx, model: &AstModel, src: &Src) {
+    let rule = "C12.H1";
+    cx.rule(rule, "hand-written folds drop nothing: in ast/src/source_locator.rs every struct literal of a generated node type gives each field other than `range` a value that is derived (def-use closure over lets, loops, pushes, match bindings and closure parameters of the enclosing function) from the same-named field of a node the function received — a field set to a constant, to a default or from another field is reported");
+    cx.floor(rule, 30);
+    let mut fns: Vec<(String, &syn::Block, Vec<String>)> = vec![];
+    let params_of = |sig: &syn::Signature| -> Vec<String> {
+        let mut v = vec![];
+        for a in &sig.inputs {
+            if let syn::FnArg::Typed(t) = a {
+                sm::pat_idents(&t.pat, &mut v);
+            }
+        }
+        v
+    };
+    for f in src.all_free_fns() {
+        fns.push((f.sig.ident.to_string(), &f.block, params_of(&f.sig)));
+    }
+    for i in src.impls() {
+        for it in &i.items {
+            if let syn::ImplItem::Fn(f) = it {
+                fns.push((format!("{}::{}", sm::self_ty_name(i), f.sig.ident), &f.block, params_of(&f.sig)));
+            }
+        }
+    }
+    for (fname, block, params) in fns {
+        let mut lits: Vec<&syn::ExprStruct> = vec![];
+        sm::for_each_expr_in_block(block, |e| {
+            if let syn::Expr::Struct(st) = e {
+                if st.path.segments.last().map_or(false, |s| model.structs.contains_key(&s.ident.to_string())) {
+                    lits.push(st);
+                }
+            }
+        });
+        if lits.is_empty() {
+            continue;
+        }
+        // def-use edges: binding -> identifiers it is computed from
+        let mut deps: BTreeMap<String, BTreeSet<String>> = BTreeMap::new();
+        let mut add = |names: Vec<String>, from: Vec<String>| {
+            for n in names {
+                deps.entry(n).or_default().extend(from.iter().cloned());
+            }
+        };
+        sm::for_each_stmt_in_block(block, &mut |st| {
+            if let syn::Stmt::Local(l) = st {
+                if let Some(init) = &l.init {
+                    let mut names = vec![];
+                    sm::pat_idents(&l.pat, &mut names);
+                    // field names of a destructuring pattern are bindings too (`Node { keys, values, .. } = node`)
+                    add(names, sm::all_ident_tokens(&init.expr));
+                }
+            }
+        });
+        sm::for_each_expr_in_block(block, |e| match e {
+            syn::Expr::ForLoop(fl) => {
+                let mut names = vec![];
+                sm::pat_idents(&fl.pat, &mut names);
+                add(names, sm::all_ident_tokens(&fl.expr));
+            }
+            syn::Expr::Match(m) => {
+                let from = sm::all_ident_tokens(&m.expr);
+                for a in &m.arms {
+                    let mut names = vec![];
+                    sm::pat_idents(&a.pat, &mut names);
+                    add(names, from.clone());
+                }
+            }
+            syn::Expr::MethodCall(mc) => {
+                let recv_ids = sm::all_ident_tokens(&mc.receiver);
+                for a in &mc.args {
+                    if let syn::Expr::Closure(c) = a {
+                        let mut names = vec![];
+                        for p in &c.inputs {
+                            sm::pat_idents(p, &mut names);
+                        }
+                        add(names, recv_ids.clone());
+                    }
+                }
+                if ["push", "extend", "insert", "push_back", "append"].contains(&mc.method.to_string().as_str()) {
+                    if let Some(r) = sm::as_ident(sm::peel(&mc.receiver)) {
+                        let mut from = vec![];
+                        for a in &mc.args {
+                            from.extend(sm::all_ident_tokens(a));
+                        }
+                        add(vec![r], from);
+                    }
+                }
+            }
+            syn::Expr::Let(l) => {
+                let mut names = vec![];
+                sm::pat_idents(&l.pat, &mut names);
+                add(names, sm::all_ident_tokens(&l.expr));
+            }
+            _ => {}
+        });
+        let reach = |start: Vec<String>| -> BTreeSet<String> {
+            let mut seen: BTreeSet<String> = BTreeSet::new();
+            let mut work = start;
+            while let Some(x) = work.pop() {
+                if seen.insert(x.clone()) {
+                    if let Some(d) = deps.get(&x) {
+                        work.extend(d.iter().cloned());
+                    }
+                }
+            }
+            seen
+        };
+        for st in lits {
+            let ty = st.path.segments.last().unwrap().ident.to_string();
+            if st.rest.is_some() {
+                cx.fail(rule, &format!("{}/{}/{}/rest", rule, fname, ty), &src.loc(st), &format!("{}: `{} {{ .., ..base }}` takes fields from a base expression the checker does not follow (fail closed)", fname, ty));
+                continue;
+            }
+            let want: Vec<&str> = model.structs[&ty].fields.iter().map(|f| f.name.as_str()).collect();
+            for f in &st.fields {
+                let syn::Member::Named(n) = &f.member else { continue };
+                let n = n.to_string();
+                let n = n.trim_start_matches("r#").to_string();
+                if n == "range" || !want.contains(&n.as_str()) {
+                    continue;
+                }
+                let r = reach(sm::all_ident_tokens(&f.expr));
+                let from_input = params.iter().any(|p| p != "self" && r.contains(p));
+                if r.contains(&n) && from_input {
+                    cx.ok_trivial(rule);
+                } else {
+                    cx.fail(rule, &format!("{}/{}/{}.{}", rule, fname, ty, n), &src.loc(f), &format!("{}: the rebuilt {}.{} is `{}`, which is not derived from the `{}` field of the node that came in: the fold drops or replaces this field", fname, ty, n, sm::tsc(&f.expr), n));
+                }
+            }
+        }
+    }
 }
